@@ -45,7 +45,14 @@ def run(ctx):
         'same argument tuple, each time point gets its own directory, every '
         'worker result is collected before the pool is closed',
         'R3 no value derived from random / time / uuid / pid / id() or from '
-        'iterating a set flows into solver state']
+        'iterating a set flows into solver state',
+        'R4 nothing survives from one model construction to the next inside '
+        'a process: no memoising decorator (lru_cache / cache / '
+        'cached_property) on package functions, no function writes a '
+        'module-level container or rebinds a module global, no mutable '
+        'default argument is mutated (a second time point, an orificing '
+        'iteration or a serial run would start from what the previous one '
+        'left behind)']
     ctx.not_decided += ['bitwise identity of floating-point results']
     res = Resolver(ctx.repo)
     keys, sections = S.parse_template(ctx.repo.template_text)
@@ -58,6 +65,8 @@ def run(ctx):
     r1_materials(ctx, res)
     r2(ctx)
     r3(ctx)
+    r4(ctx)
+    ctx.min_instances('C16.R4', 40)
     ctx.min_instances('C16.R1', 60)
     ctx.min_instances('C16.R2', 4)
     ctx.min_instances('C16.R3', 1)
@@ -663,3 +672,121 @@ def r3(ctx):
     ctx.extra['nondeterministic_sources_examined'] = n
     if n == 0:
         ctx.ok('C16.R3', 'package', None, 'no nondeterministic source found')
+
+
+# ---------------------------------------------------------------------------
+# R4: no process-level state shared between constructions
+
+MEMO = ('lru_cache', 'cache', 'cached_property', 'memoize', 'memoized')
+
+R4_POSITIVE = """
+import functools
+_CACHE = {}
+
+@functools.lru_cache(maxsize=None)
+def load(path):
+    return [1.0, 2.0]
+
+def remember(k, v):
+    _CACHE[k] = v
+
+def bump(x, acc=[]):
+    acc.append(x)
+    return acc
+"""
+
+
+def _r4_scan(m):
+    """[(func, node, what)] process-level state in one module."""
+    out = []
+    mutable_globals = {n for n, v in m.globals.items()
+                       if isinstance(v, (ast.Dict, ast.List, ast.Set,
+                                         ast.ListComp, ast.DictComp))
+                       or (isinstance(v, ast.Call) and (call_name(v) or '')
+                           in ('dict', 'list', 'set', 'collections.'
+                               'defaultdict', 'defaultdict', 'OrderedDict'))}
+    for fi in m.funcs.values():
+        for d in fi.node.decorator_list:
+            nm = call_name(d) if isinstance(d, ast.Call) else \
+                (src(d) if isinstance(d, (ast.Name, ast.Attribute)) else '')
+            if (nm or '').split('.')[-1] in MEMO:
+                out.append((fi, d, 'is memoised with @%s: every later call '
+                            'in the process gets the *same* object back, '
+                            'including what earlier users did to it' % nm))
+        local = set(fi.params)
+        for n in walk_no_nested(fi.node):
+            if isinstance(n, ast.Name) and isinstance(n.ctx, ast.Store):
+                local.add(n.id)
+        for n in walk_no_nested(fi.node):
+            if isinstance(n, ast.Global):
+                out.append((fi, n, 'rebinds module global(s) %s'
+                            % ', '.join(n.names)))
+        for t, st in U.stores(fi.node):
+            root = t
+            while isinstance(root, (ast.Subscript, ast.Attribute)):
+                root = root.value
+            if isinstance(root, ast.Name) and root.id in mutable_globals \
+                    and root.id not in local and not isinstance(t, ast.Name):
+                out.append((fi, st, 'writes the module-level container %s'
+                            % root.id))
+        for c in walk_no_nested(fi.node):
+            if isinstance(c, ast.Call) and isinstance(c.func, ast.Attribute) \
+                    and c.func.attr in MUTATORS:
+                root = c.func.value
+                while isinstance(root, (ast.Subscript, ast.Attribute)):
+                    root = root.value
+                if isinstance(root, ast.Name) and root.id in mutable_globals \
+                        and root.id not in local:
+                    out.append((fi, c, 'mutates the module-level container '
+                                '%s' % root.id))
+        # mutable default arguments that are mutated
+        a = fi.node.args
+        pos = a.posonlyargs + a.args
+        defaults = dict(zip([x.arg for x in pos][len(pos) - len(a.defaults):],
+                            a.defaults))
+        defaults.update({k.arg: d for k, d in zip(a.kwonlyargs, a.kw_defaults)
+                         if d is not None})
+        for pn, d in defaults.items():
+            if not isinstance(d, (ast.Dict, ast.List, ast.Set)):
+                continue
+            mutated = False
+            for t, st in U.stores(fi.node):
+                root = t
+                while isinstance(root, (ast.Subscript, ast.Attribute)):
+                    root = root.value
+                if isinstance(root, ast.Name) and root.id == pn and \
+                        not isinstance(t, ast.Name):
+                    mutated = True
+            for c in walk_no_nested(fi.node):
+                if isinstance(c, ast.Call) and isinstance(
+                        c.func, ast.Attribute) and c.func.attr in MUTATORS \
+                        and src(c.func.value) == pn:
+                    mutated = True
+            if mutated:
+                out.append((fi, d, 'mutates its mutable default argument %s'
+                            % pn))
+    return out
+
+
+def r4(ctx):
+    from ..core import Module
+    for m in ctx.repo.modules.values():
+        if m.name.startswith(('dassh.plot', 'dassh.py4c')):
+            continue
+        hits = _r4_scan(m)
+        for fi, node, what in hits:
+            ctx.violation('C16.R4', fi, node,
+                          '%s %s: state shared by all model constructions of '
+                          'a process' % (fi.qual, what),
+                          key='%s | process state %s' % (
+                              fi.full, ' '.join(src(node).split())[:60]))
+        if not hits:
+            ctx.ok('C16.R4', 'dassh/%s' % m.rel.split('dassh/')[-1], None,
+                   'no memoisation, no module-level state written by '
+                   'functions (%d functions)' % len(m.funcs))
+    pm = Module('dassh._positive', '<positive>', 'dassh/_positive.py',
+                R4_POSITIVE)
+    if len(_r4_scan(pm)) != 3:
+        raise AnalysisError('C16.R4 positive example: expected 3 hits, got '
+                            '%d' % len(_r4_scan(pm)))
+    ctx.ok('C16.R4', 'synthetic positive example', None, '3 hits detected')
